@@ -22,6 +22,24 @@ double __verif_strtod(const char *s, int n, int *ok) { (void)s; (void)n; *ok = n
 #endif
 int __verif_fmt_double(char *o, int cap, double v, int prec) { (void)o; (void)cap; (void)v; (void)prec; return 0; }
 void __cxa_pure_virtual(void) { __CPROVER_assert(0, "pure virtual function called"); __CPROVER_assume(0); }
+/* libc strtod called directly by the code under test: same uninterpreted conversion as the vstd extractor
+ * (prefix syntax scanned here, value and range verdict from __verif_strtod; out of range => +-HUGE_VAL, errno = ERANGE) */
+#include <errno.h>
+double __verif_strtod(const char *s, int n, int *ok);
+static int verif_errno; int *__errno_location(void) { return &verif_errno; }
+double strtod(const char *s, char **end) {
+    int i = 0, j, any = 0, ok = 1; double v;
+    while(s[i] == ' ' || (s[i] >= 9 && s[i] <= 13)) i++;
+    j = i; if(s[j] == '+' || s[j] == '-') j++;
+    while(s[j] >= '0' && s[j] <= '9') { j++; any = 1; }
+    if(s[j] == '.') { j++; while(s[j] >= '0' && s[j] <= '9') { j++; any = 1; } }
+    if(!any) { if(end) *end = (char *)s; return 0.0; }
+    if(s[j] == 'e' || s[j] == 'E') { int k = j + 1, ed = 0; if(s[k] == '+' || s[k] == '-') k++; while(s[k] >= '0' && s[k] <= '9') { k++; ed = 1; } if(ed) j = k; }
+    v = __verif_strtod(s + i, j - i, &ok);
+    if(end) *end = (char *)(s + j);
+    if(!ok) { double big = 1e308; big = big * 10.0; errno = ERANGE; if(s[i] == '-') big = 0.0 - big; return big; }
+    return v;
+}
 #endif
 void _ZdlPv(void *p) { free(p); }
 void _ZdaPv(void *p) { free(p); }
